@@ -99,6 +99,21 @@ def jobs(tier):
     ]
     if tier != 'quick':
         cfgs += [[[a, 128], [c, 20], [b, 140]] for a in ('normal_veto', 'cannot_claim', 'moved', 'moved_twice') for c in ('normal_immediate', 'bypassed', 'not_started') for b in ('wait_veto', 'bypassed', 'not_started', 'lost_waiting', 'moved_lost_waiting')]
+    if tier != 'quick':
+        # every ordered pair of claim histories on one stack (a transitional history can only come last)
+        from .common import CA_STATES
+        trans = ('wait_veto', 'lost_waiting', 'moved_lost_waiting', 'bypassed_lost_waiting')
+        for a in CA_STATES:
+            if a in trans:
+                continue
+            for b in CA_STATES:
+                cfgs.append([[a, 10 if a == 'normal_immediate' else 128], [b, 20 if b == 'normal_immediate' else 140]])
+        # three CAs: every triple of non-transitional histories from a reduced list, followed by any history
+        nt = ('normal_veto', 'normal_immediate', 'moved', 'cannot_claim', 'bypassed', 'bypassed_moved', 'not_started')
+        for a in nt:
+            for b in nt:
+                for c in CA_STATES:
+                    cfgs.append([[a, 10 if a == 'normal_immediate' else 128], [b, 20 if b == 'normal_immediate' else 150], [c, 30 if c == 'normal_immediate' else 170]])
     out = []
     for cfg in cfgs:
         for req in ('normal', 'none'):
@@ -114,7 +129,7 @@ def meta(tier):
     return {
         'bounds': ['requested PGN: all 2^18 values (symbolic); destination: all 256 values (symbolic)',
                    'requester with an address (0x10) and without one (only the address-claim request may be sent, from 254)',
-                   '1..3 responder CAs on one stack in the claim histories listed in jobs()', 'J1939-21; first argument of send_request fixed to 0'],
+                   '1..3 responder CAs on one stack in the claim histories listed in jobs() (thorough: every ordered pair of the 14 histories, 7 x 7 x 14 triples)', 'J1939-21; first argument of send_request fixed to 0'],
         'outside': ['send_request(1, ...) (emits a different PGN, not a request)', 'J1939-22'],
         'assumptions': ['transitional claim histories (wait_veto, lost_waiting, moved_lost_waiting, bypassed_lost_waiting) are set up last and the request is observed for 20 ms, i.e. before the state changes', 'address held by a CA is derived from its claim history (contending claims injected by the harness), not from the CA object'],
     }
